@@ -45,6 +45,8 @@ def parse_type(s):
         return ('union', tuple(parse_type(x) for x in alts))
     if s == 'Logger':
         return ('logger',)
+    if s == 'flagdict':
+        return ('flagdict',)
     simple = {'int': T_INT, 'bool': T_BOOL, 'str': T_STR, 'None': T_NONE,
               'Val': T_VAL, 'object': T_VAL, 'Any': T_VAL}
     if s in simple:
